@@ -82,7 +82,12 @@ class Thread(threading.Thread):
 
             tb = ''.join(traceback.format_exception(type(e), e, e.__traceback__))
             tb = f'[{threading.current_thread().name}] ' + tb
-            e.__cause__ = type(e)(tb)
+            try:
+                cause = type(e)(tb)
+            except Exception:
+                # The class can not be instantiated with a single (string) argument.
+                cause = Exception(tb)
+            e.__cause__ = cause
             e.__traceback__ = None
 
             self._future_.set_exception(e)
